@@ -356,6 +356,16 @@ static bool allZero(const void *p, size_t n)
     return n == 0 || (c[0] == 0 && memcmp(c, c + 1, n - 1) == 0);
 }
 
+/// Name equality.  A name that ends in a compression pointer to a root label (legal, though no encoder has a
+/// reason to write it) comes out of rfc1035NameUnpack with a trailing dot: "www.example." for "www.example".
+/// Both texts denote the same absolute name, so the difference is counted, not judged.
+static bool sameName(const char *got, const std::string &want, vp::Ctx &ctx)
+{
+    if (want == got) return true;
+    if (!want.empty() && want.back() != '.' && want + "." == got) { ctx.label("trailing-dot-after-pointer-to-root"); return true; }
+    return false;
+}
+
 static vp::Verdict checkDecode(const Case &c, vp::Ctx &ctx)
 {
     restoreAsanSegvHandler();
@@ -398,6 +408,11 @@ static vp::Verdict checkDecode(const Case &c, vp::Ctx &ctx)
     if (!msg && ref.headerOk && ref.questionOk && !ref.rcode && !ref.answers.empty())
         return vp::fail("decode:well-formed-leading-records-not-decoded", "ret " + std::to_string(ret) + " well-formed " + std::to_string(ref.answers.size()));
 
+    // Two limits of the strict reference are not demanded by the statement: a receiver may decode names longer
+    // than 255 octets or pointer chains longer than 30 hops.  Such datagrams are checked for safety only.
+    const bool beyondReferenceLimits = ref.why == "name longer than 255 octets" || ref.why == "pointer chain longer than 30 (loop?)";
+    if (beyondReferenceLimits) { ctx.excluded("name or pointer chain beyond the limits of the strict reference: memory safety only"); return vp::pass(); }
+
     if (msg) {
         // whatever was returned must be what the datagram says
         if (!ref.headerOk || !ref.questionOk) return vp::fail("decode:message-returned-for-undecodable-header-or-question", ref.why);
@@ -407,7 +422,7 @@ static vp::Verdict checkDecode(const Case &c, vp::Ctx &ctx)
         if (!msg->query) return vp::fail("decode:question-missing");
         if (msg->query->qtype != ref.qtype || msg->query->qclass != ref.qclass) return vp::fail("decode:question-type-or-class-differs");
         if (memchr(msg->query->name, 0, sizeof(msg->query->name)) == nullptr) return vp::fail("decode:question-name-unterminated");
-        if (!ref.qnameHostile && ref.qname != msg->query->name) return vp::fail("decode:question-name-differs", vp::esc(msg->query->name) + " want " + vp::esc(ref.qname));
+        if (!ref.qnameHostile && !sameName(msg->query->name, ref.qname, ctx)) return vp::fail("decode:question-name-differs", vp::esc(msg->query->name) + " want " + vp::esc(ref.qname));
         const int n = ret > 0 ? ret : 0;
         for (int j = 0; j < n; ++j) {
             const rfc1035_rr &rr = msg->answer[j];
@@ -415,14 +430,14 @@ static vp::Verdict checkDecode(const Case &c, vp::Ctx &ctx)
             if (static_cast<size_t>(j) >= ref.answers.size()) { ctx.label("squid-decoded-more-records-than-the-strict-reference"); continue; }
             const RefRR &want = ref.answers[j];
             const std::string at = "answer #" + std::to_string(j) + " type " + std::to_string(want.type);
-            if (!want.nameHostile && want.name != rr.name) return vp::fail("decode:record-name-differs", at + ": " + vp::esc(rr.name) + " want " + vp::esc(want.name));
+            if (!want.nameHostile && !sameName(rr.name, want.name, ctx)) return vp::fail("decode:record-name-differs", at + ": " + vp::esc(rr.name) + " want " + vp::esc(want.name));
             if (rr.type != want.type || rr._class != want.cls) return vp::fail("decode:record-type-or-class-differs", at);
             if (rr.ttl != want.ttl) return vp::fail("decode:record-ttl-differs", at + ": " + std::to_string(rr.ttl) + " want " + std::to_string(want.ttl));
             if (want.type == 12) {
                 ctx.label("ptr-record-compared");
                 if (!rr.rdata) return vp::fail("decode:ptr-target-missing", at);
                 if (memchr(rr.rdata, 0, RFC1035_MAXHOSTNAMESZ) == nullptr) return vp::fail("decode:ptr-target-unterminated", at);
-                if (!want.ptrHostile && want.ptrName != rr.rdata) return vp::fail("decode:ptr-target-differs", at + ": " + vp::esc(rr.rdata) + " want " + vp::esc(want.ptrName));
+                if (!want.ptrHostile && !sameName(rr.rdata, want.ptrName, ctx)) return vp::fail("decode:ptr-target-differs", at + ": " + vp::esc(rr.rdata) + " want " + vp::esc(want.ptrName));
             } else {
                 if (rr.rdlength != want.rdata.size()) return vp::fail("decode:rdlength-differs", at);
                 if (want.rdata.size() && (!rr.rdata || memcmp(rr.rdata, want.rdata.data(), want.rdata.size()) != 0)) return vp::fail("decode:rdata-differs", at);
